@@ -45,6 +45,8 @@ meta=dict(id=ID, patch_applies=(ap=="0"), demo_exit_original=int(rc0), demo_exit
                "patch.diff applied to a scratch worktree of /repo HEAD; GTSA_REPO=<worktree> python3 check.py --property <every claimed id> --tier quick; worktree removed"])
 old={}
 if os.path.exists(out+"/meta.json"): old=json.load(open(out+"/meta.json"))
+if tests == "not run" and old.get("existing_tests_on_changed_tree", "not run") != "not run":
+    meta["existing_tests_on_changed_tree"] = old["existing_tests_on_changed_tree"]     # re-evaluation of the checks only
 old.update(meta)
 json.dump(old,open(out+"/meta.json","w"),indent=1)
 print(json.dumps(meta,indent=1)[:2500])
